@@ -494,21 +494,485 @@ Section WithVars.
     | _ => fail KAssignability sp
     end.
 
-  (* fn expression_block (672) *)
+  Fixpoint last_stmt (l : list stmt) : option stmt :=
+    match l with
+    | [] => None
+    | [x] => Some x
+    | _ :: xs => last_stmt xs
+    end.
+
+  (* fn expression_block (672): every statement, then the last one once more as a value if it is an
+     expression statement *)
   Definition expression_block (R : arec) (sp : span) (stmts : list stmt) (ctx : tctx)
     : M (option tyid * option tyid) :=
     r <- foldM (fun (acc : option tyid) (s : stmt) =>
                   sr <- r_stmt R s ctx ;; unify_option G sp acc sr) stmts None ;;
-    match last stmts SBreak_dummy with
-    | SStatementExpression value _ =>
-      match stmts with
-      | [] => ret (r, None)
-      | _ =>
-        '(vret, v) <- r_expr R value ctx ;;
-        r' <- unify_option G sp r vret ;;
-        ret (r', Some v)
-      end
+    match last_stmt stmts with
+    | Some (SStatementExpression value _) =>
+      '(vret, v) <- r_expr R value ctx ;;
+      r' <- unify_option G sp r vret ;;
+      ret (r', Some v)
     | _ => ret (r, None)
     end.
 
+  (* macro bin_op! (89) *)
+  Definition bin_op (R : arec) (sp : span) (ctx : tctx) (a b : expr) (con : tyid -> constr) : M retn :=
+    '(a_ret, a) <- r_expr R a ctx ;;
+    '(b_ret, b) <- r_expr R b ctx ;;
+    add_constraint a (con b) ;;;
+    add_constraint b (con a) ;;;
+    g_check G sp a ;;;
+    g_check G sp b ;;;
+    r <- unify_option G sp a_ret b_ret ;;
+    ret (r, a).
+
+  Definition bin_op_ret (R : arec) (sp : span) (ctx : tctx) (a b : expr) (con : tyid -> constr) (h : tyh)
+    : M retn :=
+    '(r, _) <- bin_op R sp ctx a b con ;;
+    t <- push_type h ;;
+    ret (r, t).
+
+  (* the loop over args.zip(params) in the Call arm (745) *)
+  Fixpoint call_args (R : arec) (ctx : tctx) (args : list expr) (params : list tyid) (r : option tyid)
+    : M (option tyid) :=
+    match args, params with
+    | a :: args', p :: params' =>
+      let asp := expr_span a in
+      '(a_ret, at_) <- r_expr R a ctx ;;
+      unify G asp p at_ ;;;
+      add_constraint at_ CVariable ;;;
+      g_check G asp at_ ;;;
+      r' <- unify_option G asp r a_ret ;;
+      call_args R ctx args' params' r'
+    | _, _ => ret r
+    end.
+
+  (* value.or(ret).unwrap_or_else(|| self.push_type(Type::Void)) *)
+  Definition value_or_ret (value r : option tyid) : M tyid :=
+    match value with
+    | Some v => ret v
+    | None => match r with Some x => ret x | None => push_type HVoid end
+    end.
+
+  Definition if_branch (R : arec) (sp : span) (ctx : tctx) (br : ifbranch) : M (option tyid * option tyid) :=
+    let 'IfBranch cond body _ := br in
+    cret <- (match cond with
+             | Some c =>
+               let csp := expr_span c in
+               '(r, ct) <- r_expr R c ctx ;;
+               b <- push_type HBool ;;
+               unify G csp b ct ;;;
+               ret r
+             | None => ret None
+             end) ;;
+    '(bret, bval) <- expression_block R sp body ctx ;;
+    r <- unify_option G sp cret bret ;;
+    ret (r, bval).
+
+  Fixpoint last_branch (l : list ifbranch) : option ifbranch :=
+    match l with
+    | [] => None
+    | [x] => Some x
+    | _ :: xs => last_branch xs
+    end.
+
+  Definition case_branch (R : arec) (sp : span) (ctx : tctx) (m : tyid)
+             (acc : option tyid * option tyid * list string) (br : casebranch)
+    : M (option tyid * option tyid * list string) :=
+    let '(r, value, names) := acc in
+    let 'CaseBranch pat _ var body _ := br in
+    c <- (match var with Some v => t <- var_ty v ;; ret (Some t) | None => ret None end) ;;
+    add_constraint m (CVariant pat c) ;;;
+    g_check G sp m ;;;
+    '(bret, bval) <- expression_block R sp body ctx ;;
+    value' <- unify_option G sp value bval ;;
+    r' <- unify_option G sp r bret ;;
+    ret (r', value', sinsert pat names).
+
+  Definition is_pure_p (p : purity) : bool := match p with PPure => true | _ => false end.
+
+  (* fn expression (694) *)
+  Definition expr_body (R : arec) (e : expr) (ctx : tctx) : M retn :=
+    '(expr_ret, ex) <-
+      (match e with
+       | ERead var sp =>
+         k <- var_kind var ;;
+         if inside_pure ctx && negb (immutable k) then fail KImpurity sp
+         else t <- var_ty var ;; ret (None, t)
+       | EVariant ty variant value sp =>
+         '(vret, v) <- r_expr R value ctx ;;
+         et <- var_ty ty ;;
+         enum_ty <- copy G et ;;
+         add_constraint enum_ty (CVariant variant (Some v)) ;;;
+         g_check G sp enum_ty ;;;
+         ret (vret, enum_ty)
+       | ECall f args sp =>
+         '(ret0, fn) <- r_expr R f ctx ;;
+         t <- find_type fn ;;
+         match t with
+         | HFn params ret_ty pur =>
+           if negb (Nat.eqb (length args) (length params)) then fail KWrongArity sp
+           else if inside_pure ctx && negb (is_pure_p pur) then fail KImpurity sp
+           else
+             r <- call_args R ctx args params ret0 ;;
+             g_check G sp ret_ty ;;;
+             ret (r, ret_ty)
+         | _ => fail KViolating sp
+         end
+       | EBlobAccess value field sp =>
+         '(oret, outer) <- r_expr R value ctx ;;
+         field_ty <- push_type HUnknown ;;
+         add_constraint outer (CField field field_ty) ;;;
+         g_check G sp outer ;;;
+         t <- find_type outer ;;
+         ft <- (match t with HFn _ _ _ => copy G field_ty | _ => ret field_ty end) ;;
+         ret (oret, ft)
+       | EIndex value index sp =>
+         '(vret, v) <- r_expr R value ctx ;;
+         '(iret, i) <- r_expr R index ctx ;;
+         int_t <- push_type HInt ;;
+         unify G sp i int_t ;;;
+         ex <- push_type HUnknown ;;
+         (match index with
+          | EInt z _ => add_constraint v (CConstIdx z ex)
+          | _ => panic PIndexNotInt
+          end) ;;;
+         g_check G sp v ;;;
+         g_check G sp i ;;;
+         r <- unify_option G sp vret iret ;;
+         ret (r, ex)
+       | EBinOp op a b sp =>
+         match op with
+         | Nop => panic PBinOpNop
+         | Equals | AssertEq | NotEquals => bin_op_ret R sp ctx a b CEqu HBool
+         | Greater | Less => bin_op_ret R sp ctx a b CCmp HBool
+         | GreaterEqual | LessEqual => bin_op_ret R sp ctx a b CCmpEqu HBool
+         | Add => bin_op R sp ctx a b CAdd
+         | Sub => bin_op R sp ctx a b CSub
+         | Mul => bin_op R sp ctx a b CMul
+         | Div =>
+           '(a_ret, a) <- r_expr R a ctx ;;
+           '(b_ret, b) <- r_expr R b ctx ;;
+           add_constraint a (CDivTop b) ;;;
+           add_constraint b (CDivBot a) ;;;
+           c <- push_type HUnknown ;;
+           add_constraint c (CDivRes a) ;;;
+           g_check G sp a ;;;
+           g_check G sp b ;;;
+           g_check G sp c ;;;
+           r <- unify_option G sp a_ret b_ret ;;
+           ret (r, c)
+         | And | Or =>
+           '(a_ret, a) <- r_expr R a ctx ;;
+           '(b_ret, b) <- r_expr R b ctx ;;
+           boolean <- push_type HBool ;;
+           unify G sp a boolean ;;;
+           unify G sp b boolean ;;;
+           r <- unify_option G sp a_ret b_ret ;;
+           ret (r, a)
+         end
+       | EUniOp op a sp =>
+         match op with
+         | Neg =>
+           '(a_ret, a) <- r_expr R a ctx ;;
+           add_constraint a CNeg ;;;             (* no check_constraints here (840) *)
+           ret (a_ret, a)
+         | Not =>
+           '(a_ret, a) <- r_expr R a ctx ;;
+           boolean <- push_type HBool ;;
+           u <- unify G sp a boolean ;;
+           ret (a_ret, u)
+         end
+       | EIf branches sp =>
+         tys <- mapM (if_branch R sp ctx) branches ;;
+         match last_branch branches with
+         | None => panic PIfNoBranch
+         | Some (IfBranch (Some _) _ _) =>
+           (* no else branch: the value is void and the returns of the branches are dropped (873-881) *)
+           v <- push_type HVoid ;; ret (None, v)
+         | Some (IfBranch None _ _) =>
+           '(r, value) <- foldM (fun (acc : option tyid * option tyid) (b : option tyid * option tyid) =>
+                                   r' <- unify_option G sp (fst b) (fst acc) ;;
+                                   v' <- unify_option G sp (snd b) (snd acc) ;;
+                                   ret (r', v')) tys (None, None) ;;
+           v <- value_or_ret value r ;;
+           ret (r, v)
+         end
+       | ECase to_match branches fall sp =>
+         '(ret0, m) <- r_expr R to_match ctx ;;
+         add_constraint m CEnum ;;;
+         '(r, value, names) <- foldM (case_branch R sp ctx m) branches (ret0, None, []) ;;
+         '(r, value) <- (match fall with
+                         | Some ft =>
+                           '(fret, f) <- expression_block R sp ft ctx ;;
+                           r' <- unify_option G sp fret r ;;
+                           v' <- unify_option G sp f value ;;
+                           ret (r', v')
+                         | None =>
+                           add_constraint m (CTotalEnum names) ;;;
+                           g_check G sp m ;;;
+                           ret (r, value)
+                         end) ;;
+         v <- value_or_ret value r ;;
+         ret (r, v)
+       | EFunction _ params rty body pure sp =>
+         '(f_ty, ret_ty) <- type_from_function R params rty pure ;;
+         let ctx := if pure then enter_pure ctx else ctx in      (* inside_loop is inherited (950) *)
+         '(actual_ret, implicit_ret) <- expression_block R sp body ctx ;;
+         actual_ret <- (if is_void_ty rty
+                        then v <- push_type HVoid ;; unify_option G sp actual_ret (Some v)
+                        else unify_option G sp actual_ret implicit_ret) ;;
+         unify_option G sp (Some ret_ty) actual_ret ;;;
+         isv <- (match actual_ret with Some x => is_void x | None => ret true end) ;;
+         if isv && negb (is_void_ty rty) then fail KExotic (ty_span rty)
+         else
+           unify_option G sp (Some ret_ty) actual_ret ;;;
+           ret (None, f_ty)
+       | EBlob blob fields _ sp =>
+         bt <- var_ty blob ;;
+         blob_ty <- copy G bt ;;
+         t <- find_type blob_ty ;;
+         match t with
+         | HBlob name _ bfields bargs =>
+           given <- foldM (fun (acc : fieldmap) (fe : string * expr) =>
+                             u <- push_type HUnknown ;;
+                             ret (finsert (fst fe) (expr_span (snd fe), u) acc)) fields [] ;;
+           let missing := map (fun _ => mkErr KMissingField sp)
+                              (filter (fun kv : string * (span * tyid) => negb (fmem (fst kv) given)) bfields) in
+           let unknown := map (fun kv : string * (span * tyid) => mkErr KUnknownField (fst (snd kv)))
+                              (filter (fun kv : string * (span * tyid) => negb (fmem (fst kv) bfields)) given) in
+           match missing ++ unknown with
+           | e1 :: more => fail_many e1 more
+           | [] =>
+             given_blob <- push_type (HBlob name sp given bargs) ;;
+             ret0 <- push_type HUnknown ;;
+             iterM (fun fe : string * expr =>
+                      '(iret, ety) <- r_expr R (snd fe) ctx ;;
+                      unify_option G sp (Some ret0) iret ;;;
+                      match flookup (fst fe) given with
+                      | Some (_, ft) => unify G (expr_span (snd fe)) ety ft ;;; ret tt
+                      | None => panic PFieldIndex
+                      end) fields ;;;
+             u <- unify G sp given_blob blob_ty ;;
+             ret (Some ret0, u)
+           end
+         | HExtBlob _ _ _ _ _ => fail KExternBlobInstance sp
+         | _ => fail KViolating sp
+         end
+       | ECollection CTuple values sp =>
+         ret0 <- push_type HUnknown ;;
+         tys <- mapM (fun v =>
+                        '(iret, t) <- r_expr R v ctx ;;
+                        unify_option G sp (Some ret0) iret ;;;
+                        ret t) values ;;
+         t <- push_type (HTuple tys) ;;
+         ret (Some ret0, t)
+       | ECollection CList values sp =>
+         inner <- push_type HUnknown ;;
+         ret0 <- push_type HUnknown ;;
+         iterM (fun v =>
+                  '(eret, et) <- r_expr R v ctx ;;
+                  unify G sp inner et ;;;
+                  unify_option G sp (Some ret0) eret ;;;
+                  ret tt) values ;;;
+         t <- push_type (HList inner) ;;
+         ret (Some ret0, t)
+       | EFloat _ _ => t <- push_type HFloat ;; ret (None, t)
+       | EInt _ _ => t <- push_type HInt ;; ret (None, t)
+       | EStr _ _ => t <- push_type HStr ;; ret (None, t)
+       | EBool _ _ => t <- push_type HBool ;; ret (None, t)
+       | ENil _ => t <- push_type HNil ;; ret (None, t)
+       end) ;;
+    (* every function-typed expression value is re-instantiated (1093-1097) *)
+    t <- find_type ex ;;
+    match t with
+    | HFn _ _ _ => c <- copy G ex ;; ret (expr_ret, c)
+    | _ => ret (expr_ret, ex)
+    end.
+
+  (* fn definition (403) *)
+  Definition definition (R : arec) (var : N) (kind : varkind) (t : ty) (value : expr) (sp : span) (ctx : tctx)
+    : M (option tyid) :=
+    if inside_pure ctx && negb (immutable kind) then fail KImpurity sp else
+    vt <- var_ty var ;;
+    (match value with
+     | EFunction _ params rty _ pure _ =>
+       '(f_ty, _) <- type_from_function R params rty pure ;;
+       unify G sp vt f_ty ;;; ret tt
+     | _ => ret tt
+     end) ;;;
+    dt <- resolve_type R t ;;
+    add_constraint dt CVariable ;;;
+    unify G sp vt dt ;;;
+    '(value_ret, value_ty) <- r_expr R value ctx ;;
+    unify G sp vt value_ty ;;;
+    ret value_ret.
+
+  (* fn statement (433) *)
+  Definition stmt_body (R : arec) (s : stmt) (ctx : tctx) : M (option tyid) :=
+    match s with
+    | SRet (Some value) sp =>
+      '(r, v) <- r_expr R value ctx ;;
+      match r with
+      | Some r => u <- unify G sp v r ;; ret (Some u)
+      | None => ret (Some v)
+      end
+    | SRet None _ => v <- push_type HVoid ;; ret (Some v)
+    | SBlock stmts sp => '(r, _) <- expression_block R sp stmts ctx ;; ret r
+    | SStatementExpression value _ => '(r, _) <- r_expr R value ctx ;; ret r
+    | SAssignment op target value sp =>
+      can_assign sp target ;;;
+      if inside_pure ctx then fail KExotic sp else
+      '(e_ret, e_ty) <- r_expr R value ctx ;;
+      '(t_ret, t_ty) <- r_expr R target ctx ;;
+      (match op with
+       | Add => add_constraint e_ty (CAdd t_ty) ;;; add_constraint t_ty (CAdd e_ty)
+       | Sub => add_constraint e_ty (CSub t_ty) ;;; add_constraint t_ty (CSub e_ty)
+       | Mul => add_constraint e_ty (CMul t_ty) ;;; add_constraint t_ty (CMul e_ty)
+       | _ => ret tt
+       end) ;;;
+      (match op with
+       | Div =>
+         add_constraint e_ty (CDivBot t_ty) ;;;
+         add_constraint t_ty (CDivRes t_ty) ;;;
+         add_constraint t_ty (CDivTop e_ty) ;;;
+         g_check G sp e_ty ;;;
+         g_check G sp t_ty
+       | _ => unify G sp e_ty t_ty ;;; ret tt
+       end) ;;;
+      unify_option G sp e_ret t_ret
+    | SDefinition _ var kind t value sp => definition R var kind t value sp ctx
+    | SLoop condition body sp =>
+      '(r, c) <- r_expr R condition ctx ;;
+      boolean <- push_type HBool ;;
+      unify G sp boolean c ;;;
+      '(body_ret, _) <- expression_block R sp body (enter_loop ctx) ;;
+      unify_option G sp r body_ret
+    | SBreak sp => if inside_loop ctx then ret None else fail KExotic sp
+    | SContinue sp => if inside_loop ctx then ret None else fail KExotic sp
+    | SUnreachable _ => ret None
+    | SBlob _ _ _ _ _ _ | SEnum _ _ _ _ _ | SExternalDefinition _ _ _ _ _ => panic PInnerDecl
+    end.
+
+  Definition astep (R : arec) : arec := mkA (expr_body R) (stmt_body R) (type_body R).
+
+  Fixpoint afix (fuel : nat) : arec :=
+    match fuel with
+    | O => a_bottom
+    | S f => astep (afix f)
+    end.
+
+  (* HashMap::insert on the generics map: the number of entries is the number of distinct names *)
+  Fixpoint gen_insert (k : string) (v : tyid) (m : genmap) : genmap :=
+    match m with
+    | [] => [(k, v)]
+    | (k', v') :: r => if String.eqb k k' then (k, v) :: r else (k', v') :: gen_insert k v r
+    end.
+
+  (* the order in which the HashMap of fields / variants of a declaration is iterated (571, 612) *)
+  Variable orc : N -> list (string * (span * ty)) -> list (string * (span * ty)).
+
+  (* the two loops of the Enum / Blob arms of fn outer_statement (560-640) *)
+  Definition decl_params (variables : list string) : M (list tyid * genmap) :=
+    foldM (fun (acc : list tyid * genmap) (v : string) =>
+             t <- push_type HUnknown ;;
+             ret (fst acc ++ [t], gen_insert v t (snd acc))) variables ([], []).
+
+  Definition decl_fields (R : arec) (num_vars : nat) (fields : list (string * (span * ty))) (seen : genmap)
+    : M fieldmap :=
+    r <- foldM (fun (acc : fieldmap * genmap) (f : string * (span * ty)) =>
+                  let '(k, (ksp, t)) := f in
+                  rt <- r_type R t (snd acc) ;;
+                  if negb (Nat.eqb num_vars (length (snd rt))) then fail KExotic ksp
+                  else ret (finsert k (ksp, fst rt) (fst acc), snd rt)) fields ([], seen) ;;
+    ret (fst r).
+
+  (* fn outer_statement (555) *)
+  Definition outer_statement (R : arec) (s : stmt) (ctx : tctx) : M unit :=
+    match s with
+    | SEnum name var sp variables variants =>
+      enum_ty <- var_ty var ;;
+      '(type_params, seen) <- decl_params variables ;;
+      resolved <- decl_fields R (length seen) (orc var variants) seen ;;
+      t <- push_type (HEnum name sp resolved type_params) ;;
+      unify G sp t enum_ty ;;; ret tt
+    | SBlob name var sp variables fields external =>
+      blob_ty <- var_ty var ;;
+      '(type_params, seen) <- decl_params variables ;;
+      resolved <- decl_fields R (length seen) (orc var fields) seen ;;
+      t <- push_type (if external then HExtBlob name sp resolved type_params var
+                      else HBlob name sp resolved type_params) ;;
+      unify G sp t blob_ty ;;; ret tt
+    | SDefinition _ var kind t value sp => definition R var kind t value sp ctx ;;; ret tt
+    | SExternalDefinition _ var _ t sp =>
+      dt <- resolve_type R t ;;
+      vt <- var_ty var ;;
+      unify G sp vt dt ;;; ret tt
+    | _ => panic POuterStmt
+    end.
+
+  (* `.or_else(|_| err_type_error!(.., Mismatch ..))` *)
+  Definition or_else_err {A} (m : M A) (k : ekind) (sp : span) : M A := fun s =>
+    match m s with
+    | Err _ _ => Err (mkErr k sp) []
+    | o => o
+    end.
+
+  (* fn TypeChecker::solve (2011) *)
+  Definition solve (R : arec) (stmts : list stmt) (start_var : option var) : M unit :=
+    iterM (fun s => outer_statement R s ctx_new) stmts ;;;
+    match start_var with
+    | Some v =>
+      void <- push_type HVoid ;;
+      start <- push_type (HFn [] void PUndefined) ;;
+      t <- var_ty (v_id v) ;;
+      or_else_err (unify G (v_def v) t start ;;; ret tt) KMismatch (v_def v)
+    | None => fail KExotic (span_zero 0)
+    end.
+
 End WithVars.
+
+(* ------------------------------------------------------------------ typechecker::solve *)
+
+Fixpoint kinds_of (vars : list var) (i : positive) (m : PositiveMap.t varkind) : PositiveMap.t varkind :=
+  match vars with
+  | [] => m
+  | v :: vs => kinds_of vs (Pos.succ i) (PositiveMap.add i (v_kind v) m)
+  end.
+
+Definition find_start (vars : list var) : option var :=
+  List.find (fun v => String.eqb (v_name v) "start" && v_global v) vars.
+
+Definition id_orc : N -> list (string * (span * ty)) -> list (string * (span * ty)) := fun _ l => l.
+
+(* pub(crate) fn solve: the result of type checking (the final state is what `intermediate::compile` reads;
+   only the verdict is observable here) *)
+Definition typecheck (fuel : nat) (orc : N -> list (string * (span * ty)) -> list (string * (span * ty)))
+           (r : resolved) : outcome unit :=
+  let vars := r_vars r in
+  let kinds := kinds_of vars 1 (PositiveMap.empty varkind) in
+  let G := gfix fuel in
+  match (init_vars (length vars) ;;; solve kinds G orc (afix kinds G fuel) (r_stmts r) (find_start vars)) empty_st with
+  | Ok _ => Ok tt
+  | Err e more => Err e more
+  | Panic p => Panic p
+  | OutOfFuel => OutOfFuel
+  end.
+
+(* compiler.rs 106-116: the Lua text is produced (by `lower`, whatever it is) only after the type
+   checker returned Ok; nothing is written otherwise. *)
+Inductive compiled (L : Type) :=
+| COk (lua : L)
+| CErr (e : err) (more : list err)
+| CPanic (p : site)
+| COutOfFuel.
+Arguments COk {L}. Arguments CErr {L}. Arguments CPanic {L}. Arguments COutOfFuel {L}.
+
+Definition compile_after_order {L} (lower : resolved -> L) (fuel : nat)
+           (orc : N -> list (string * (span * ty)) -> list (string * (span * ty))) (r : resolved) : compiled L :=
+  match typecheck fuel orc r with
+  | Ok _ => COk (lower r)
+  | Err e more => CErr e more
+  | Panic p => CPanic p
+  | OutOfFuel => COutOfFuel
+  end.
